@@ -88,6 +88,8 @@ def h_magic_depth3(k1: int, k2: int, k3: int, v1: int, flat: int) -> bool:
 _DS = DefaultSettings()
 _CUB = magpy.magnet.Cuboid(dimension=(1, 1, 1), polarization=(0, 0, 1))
 _SEN = magpy.Sensor()
+# (every condition assigns each default / object leaf it reads on every path, so no reset between paths is needed; a full
+#  DefaultSettings.reset() costs seconds under the tracer)
 OPAC = (None, 0.25, 0.5, 0.75)
 SIZES = (None, 1, 2, 3)
 
@@ -105,7 +107,6 @@ def h_precedence_opacity(kw: int, ob: int, base: int) -> bool:
     post: _
     """
     # base-level leaf `opacity`: show kwarg > object style > base default
-    _DS.reset()
     _CUB.style.opacity = None
     _CUB.style.magnetization.arrow.width = None
     _SEN.style.path.line.width = None
@@ -126,7 +127,6 @@ def h_precedence_family_leaf(kw: int, ob: int, fam: int, notation: int) -> bool:
     post: _
     """
     # family-level leaf magnetization.arrow.width (magnet family): show kwarg > object style > family default; object value in one of the three notations
-    _DS.reset()
     _CUB.style.opacity = None
     _CUB.style.magnetization.arrow.width = None
     _SEN.style.path.line.width = None
@@ -152,7 +152,6 @@ def h_precedence_base_nested_leaf(kw: int, ob: int, base: int, notation: int) ->
     post: _
     """
     # nested base leaf path.line.width on a Sensor
-    _DS.reset()
     _CUB.style.opacity = None
     _CUB.style.magnetization.arrow.width = None
     _SEN.style.path.line.width = None
@@ -195,6 +194,37 @@ def h_last_assignment_wins(a: int, b: int, n1: int, n2: int) -> bool:
     return ok
 
 
+_OBJ_LEAVES = (("opacity", (0.25, 0.5)), ("path.line.width", (3, 7)), ("magnetization.arrow.width", (4, 9)), ("magnetization.arrow.size", (2, 3)),
+               ("magnetization.color.transition", (0.25, 0.5)), ("path.marker.size", (4, 6)))
+
+
+_CUB2 = magpy.magnet.Cuboid(polarization=(0, 0, 1), dimension=(1, 1, 1))
+
+
+def _get_leaf(root, dotted):
+    o = root
+    for p in dotted.split("."):
+        o = getattr(o, p)
+    return o
+
+
+def h_last_assignment_wins_any_leaf(leaf: int, n1: int, n2: int) -> bool:
+    """
+    pre: 0 <= leaf <= 5 and 0 <= n1 <= 2 and 0 <= n2 <= 2
+    post: _
+    """
+    # two successive assignments of one leaf of a magnet style, each in any of the three notations: the second value is the effective one
+    st = _CUB2.style
+    k, vals = _pick(_OBJ_LEAVES, leaf)
+    _set_leaf(st, k, None, 0)
+    _set_leaf(st, k, vals[0], n1)
+    first_ok = _get_leaf(st, k) == vals[0]
+    _set_leaf(st, k, vals[1], n2)
+    ok = first_ok and _get_leaf(st, k) == vals[1]
+    _set_leaf(st, k, None, 0)
+    return ok
+
+
 def h_invalid_value_rejected(x: int) -> bool:
     """
     pre: -3 <= x <= 3
@@ -217,7 +247,6 @@ def twin_precedence_object_value_used(ob: int, fam: int) -> bool:
     post: _
     """
     # reachability: some combination resolves to the object's own value although a different family default is set
-    _DS.reset()
     _CUB.style.opacity = None
     _CUB.style.magnetization.arrow.width = None
     _SEN.style.path.line.width = None
@@ -238,7 +267,6 @@ def h_precedence_two_families(ob: int, spec: int, gen: int) -> bool:
     post: _
     """
     # a Triangle belongs to the generic 'magnet' family and to its own 'triangle' family: object style > triangle default > magnet default
-    _DS.reset()
     _DS.display.style.magnet.magnetization.arrow.width = _pick(SIZES, gen)
     _DS.display.style.triangle.magnetization.arrow.width = _pick(SIZES, spec)
     _TRI.style.magnetization.arrow.width = _pick(SIZES, ob)
@@ -289,3 +317,120 @@ def twin_show_style_does_not_leak(kw: int, fail: bool) -> bool:
     except KeyError:
         return False
     return True
+
+
+# ---------------------------------------------------------------------------- reset restores every default; styles of different objects / copies are independent
+_LEAVES = (
+    ("display.style.base.opacity", (0.25, 0.5)),
+    ("display.style.base.path.line.width", (3, 7)),
+    ("display.style.magnet.magnetization.arrow.width", (4, 9)),
+    ("display.style.magnet.magnetization.arrow.size", (2, 3)),
+    ("display.style.current.arrow.width", (4, 9)),
+    ("display.style.sensor.size", (3, 5)),
+    ("display.style.dipole.size", (3, 5)),
+    ("display.style.triangle.magnetization.arrow.size", (2, 5)),
+    ("display.style.markers.marker.size", (4, 6)),
+    ("display.animation.fps", (7, 11)),
+    ("display.autosizefactor", (5, 12)),
+)
+_PRISTINE = DefaultSettings().as_dict(flatten=True, separator=".")
+
+
+def _set_leaf(root, dotted, val, notation):
+    parts = dotted.split(".")
+    if notation == 0:  # attribute assignment
+        o = root
+        for p in parts[:-1]:
+            o = getattr(o, p)
+        setattr(o, parts[-1], val)
+    elif notation == 1:  # magic underscore keyword
+        root.update(**{"_".join(parts): val})
+    else:  # nested dictionary
+        d = val
+        for p in reversed(parts):
+            d = {p: d}
+        root.update(**d)
+
+
+_DS2 = DefaultSettings()
+
+
+def _reset_case(l1: int, v1: int, n1: int) -> bool:
+    # an update of an arbitrary leaf in the given notation, then reset(): the leaf and all other listed leaves are back at the values of a
+    # fresh DefaultSettings
+    # (the defaults object is shared by the paths: every path leaves it reset; a path that finds reset() broken is the counterexample)
+    ds = _DS2
+    k, vals = _pick(_LEAVES, l1)
+    _set_leaf(ds, k, _pick(vals, v1), n1)
+    ok = _get_leaf(ds, k) == _pick(vals, v1)
+    for kk, _v in _LEAVES:
+        if kk != k:
+            ok = ok and _get_leaf(ds, kk) == _PRISTINE[kk]  # nothing else moved
+    ds.reset()
+    for kk, _v in _LEAVES:
+        ok = ok and _get_leaf(ds, kk) == _PRISTINE[kk]
+    return ok
+
+
+def h_reset_restores_defaults_attr(l1: int) -> bool:
+    """
+    pre: 0 <= l1 <= 10
+    post: _
+    """
+    return _reset_case(l1, 0 % 2, 0)
+
+
+def h_reset_restores_defaults_underscore(l1: int) -> bool:
+    """
+    pre: 0 <= l1 <= 10
+    post: _
+    """
+    return _reset_case(l1, 1 % 2, 1)
+
+
+def h_reset_restores_defaults_nested(l1: int) -> bool:
+    """
+    pre: 0 <= l1 <= 10
+    post: _
+    """
+    return _reset_case(l1, 2 % 2, 2)
+
+
+def twin_reset_restores_defaults(l1: int, v1: int, n1: int) -> bool:
+    """
+    pre: 0 <= l1 <= 10 and 0 <= v1 <= 1 and 0 <= n1 <= 2
+    post: _
+    """
+    ds = _DS2
+    k, vals = _pick(_LEAVES, l1)
+    _set_leaf(ds, k, _pick(vals, v1), n1)
+    r = _get_leaf(ds, k) == _PRISTINE[k]  # must be refuted: the update is visible
+    _set_leaf(ds, k, _PRISTINE[k], 0)
+    return r
+
+
+_CUB3 = magpy.magnet.Cuboid(polarization=(0, 0, 1), dimension=(1, 1, 1))
+_CUB4 = magpy.magnet.Cuboid(polarization=(0, 0, 1), dimension=(1, 1, 1))
+
+
+def h_styles_independent(l1: int, n1: int) -> bool:
+    """
+    pre: 0 <= l1 <= 5 and 0 <= n1 <= 2
+    post: _
+    """
+    # a style value set on one object shows neither on another object of the same class nor in the defaults; a copy made afterwards
+    # carries it and is independent from then on
+    a, b = _CUB3, _CUB4
+    k, vals = _pick(_OBJ_LEAVES, l1)
+    _set_leaf(a.style, k, None, 0)
+    d_before = _get_leaf(magpy.defaults.display.style.magnet, k) if k.startswith("magnetization") else _get_leaf(magpy.defaults.display.style.base, k)
+    _set_leaf(a.style, k, vals[0], n1)
+    c1 = a.copy()
+    ok = _get_leaf(a.style, k) == vals[0] and _get_leaf(b.style, k) is None
+    d_after = _get_leaf(magpy.defaults.display.style.magnet, k) if k.startswith("magnetization") else _get_leaf(magpy.defaults.display.style.base, k)
+    ok = ok and d_after == d_before
+    ok = ok and _get_leaf(c1.style, k) == vals[0] and c1.style is not a.style
+    _set_leaf(c1.style, k, vals[1], 0)
+    ok = ok and _get_leaf(a.style, k) == vals[0]
+    _set_leaf(a.style, k, None, 0)
+    return ok
